@@ -431,6 +431,8 @@ def _feats(known) -> dict:
 
 
 def strategy(ctx):
+    global _TMP
+    _TMP = ctx.tmp  # also in the runner's shrink worker, which calls ctx.cleanup() afterwards
     return gen.cases(_feats(ctx.known))
 
 
